@@ -787,6 +787,50 @@ pub fn run(ctx: &mut Ctx) -> (&'static str, String, bool) {
         }
         ctx.merge(p);
     }
+    // ---- 11. every Unicode scalar value (not only the tables' repertoire) in each of the ten codepage contexts:
+    //          after encode-then-decode the character is either itself or the fallback '?', never another character,
+    //          and its neighbours are untouched. (Quick: the whole BMP and every 4th supplementary scalar.) ------------
+    {
+        let contexts: [(char, &str); 10] = [('L', "a"), ('G', "λ"), ('C', "ж"), ('E', "ě"), ('T', "ş"), ('B', "ņ"), ('J', "あ"), ('S', "们"), ('K', "한"), ('H', "們")];
+        let stride = ctx.tier.pick(4u32, 1u32);
+        let off = (ctx.seed as u32) % stride;
+        let scalars: Vec<char> = (0x20u32..0x110000)
+            .filter(|u| *u < 0x10000 || u % stride == off)
+            .filter(|u| !(0xE000..=0xF8FF).contains(u) && *u != 0x5E)
+            .filter_map(char::from_u32)
+            .collect();
+        ctx.extra("all_scalars_swept", json!(scalars.len()));
+        let parts: Vec<Part> = scalars
+            .par_chunks(4096)
+            .map(|chunk| {
+                let mut p = Part::new();
+                for ch in chunk {
+                    for (letter, cx) in contexts {
+                        let s = format!("{cx}{ch}{cx}");
+                        p.evaluations += 1;
+                        match guarded(|| {
+                            let b = to_lossy_bytes(&s).to_vec();
+                            (to_lossy_string(&b).to_string(), b)
+                        }) {
+                            Ok((back, _)) if back == s => {},
+                            Ok((back, _)) if back.chars().count() == 3 && back.starts_with(cx) && back.ends_with(cx) && back.chars().nth(1) == Some('?') => {},
+                            Ok((back, b)) => p.violation(
+                                format!("C10/scalar-becomes-another-character/{letter}"),
+                                format!("{:?} (U+{:04X} in a ^{letter} context) encodes to {} which decodes to {:?}: neither the text nor the text with '?' in its place", s, *ch as u32, hex(&b), back),
+                                json!({"input": s, "context": letter.to_string()}),
+                            ),
+                            Err(pn) => p.violation("C10/encode-panic", format!("converting {:?} panicked: {pn}", s), json!({"input": s})),
+                        }
+                    }
+                }
+                p.distinct(&format!("scalars-from-{:X}", chunk[0] as u32));
+                p
+            })
+            .collect();
+        for p in parts {
+            ctx.merge(p);
+        }
+    }
     // ---- 8. homogeneous runs: n copies of one character (alone, after a short ASCII prefix, before an ASCII tail). The
     //         ratio of UTF-8 length to wire length is extreme for half-width katakana and the 0x80-0x9F punctuation ------
     {
@@ -817,7 +861,7 @@ pub fn run(ctx: &mut Ctx) -> (&'static str, String, bool) {
     ctx.assume("encode-side strings are drawn from 'safe' characters: wherever a same-named WHATWG encoder can encode them, the bytes are the Microsoft mapping of that character");
     (
         "exploration",
-        "every core entry of the ten tables decoded after its marker (exhaustive); every safe character encoded in ASCII context (quick: every 3rd, offset by seed); codepage-pair and random multi-switch strings; BOM-lookalike prefixes; every double-byte character with trail byte 0x5E before every marker letter; ASCII strings (exhaustive to length 2/3); unrepresentable characters; every byte (pair) after every marker for totality; runs of 1-100 undecodable bytes after every marker followed by an ASCII tail that must survive; runs of 1-100 copies of one character; every character of every Microsoft table (35 000, private-use points excepted) in each of the ten codepage contexts; distinct = distinct inputs".into(),
+        "every core entry of the ten tables decoded after its marker (exhaustive); every safe character encoded in ASCII context (quick: every 3rd, offset by seed); codepage-pair and random multi-switch strings; BOM-lookalike prefixes; every double-byte character with trail byte 0x5E before every marker letter; ASCII strings (exhaustive to length 2/3); unrepresentable characters; every byte (pair) after every marker for totality; runs of 1-100 undecodable bytes after every marker followed by an ASCII tail that must survive; runs of 1-100 copies of one character; every character of every Microsoft table (35 000, private-use points excepted) in each of the ten codepage contexts; every Unicode scalar value (quick: the BMP and every 4th beyond) in the same ten contexts must come back as itself or as '?'; distinct = distinct inputs".into(),
         false,
     )
 }
